@@ -10,6 +10,18 @@ import DuneVerif.Gen.C02
     rep   = fm | dm | diag             (diag: `<A>` lists the n diagonal entries)
     piv   = 1 | 0 | d                  (d: the call without the optional `doPivoting` argument)
     `<A>` row-major `[a00,a01,…]`; gf: residues; f64/ld: IEEE-754 binary64 bit patterns in decimal; c64: re,im pairs
+    round three: field = `<base>[@ka@kb][%L]`, base = gf | f64 | ld | c64 | v64
+      `v64` = `LoopSIMD<double,4>`: `<A>`, `<b>` list four lanes, each a matrix / right-hand side of its own; by the
+        lane-wise transparency of the SIMD layer (property C09, `DV.C09.solve_lanewise` …) the model's answer is the
+        scalar model's answer lane by lane (FMatrixError as soon as one lane reports it);
+      `@ka@kb` (ld only): the operands are `2^ka·A`, `2^kb·b` in long double.  The model computes in `Float` on the
+        unscaled operands: by `DV.C02.solveLU_scale / invertLU_scale / detLU_scale` (Props/C02.lean) the LU path
+        reports FMatrixError for the scaled operands iff it does for the unscaled ones and the results are the scaled
+        results, under every rounding that commutes with the scaling (binary formats, powers of two, no over/underflow);
+      `%L`: the harness calls `FMatrixPrecision<>::set_absolute_limit(10^L)` (`z`: 0) around the call.  The model of the
+        default build has no such parameter (the code must not read it): the token is validated and ignored.
+    A floating-point matrix with a zero row, a zero column or (real types) two equal rows is exactly singular and
+    the elimination meets an exact zero pivot: n ≥ 4 → `ERR:FMatrix` / determinant exactly 0; n ≤ 3, diag → `unspecified`.
 
   Everything is computed by `DV.C02.determinant / solve / invert / fmhInvert` (Model/C02Top.lean: size dispatch
   between the closed forms of `DV.C02.Gen`, regenerated from the source, and the LU path of Model/C02.lean) and
@@ -187,13 +199,22 @@ def detOk (mag : K → Float) (n : Nat) (a : Array K) (d : K) : Bool :=
 
 variable {Q : Type} [LT Q] [DecidableLT Q] [BEq Q] [OfNat Q 0]
 
-def fltCase (mag : K → Float) (absval : K → Q) (op rep : String) (n : Nat) (piv : PivArg)
-    (a : Array K) (b : Option (Array K)) : String :=
+/-- exactly singular whatever the rounding: a zero row, a zero column or (`dup`, real types) two equal rows -/
+def structSingular (isZ : K → Bool) (eqK : K → K → Bool) (dup : Bool) (n : Nat) (a : Array K) : Bool :=
+  let e (i j : Nat) : K := a.getD (i * n + j) 0
+  (List.range n).any (fun i => (List.range n).all (fun j => isZ (e i j)) || (List.range n).all (fun j => isZ (e j i)))
+  || (dup && (List.range n).any fun i => (List.range n).any fun k =>
+        decide (i < k) && (List.range n).all fun j => eqK (e i j) (e k j))
+
+/-- answer for one floating-point operand: `resid-ok` / `resid-bad` / `ERR:FMatrix` / `unspecified` -/
+def fltCase (mag : K → Float) (absval : K → Q) (isZ : K → Bool) (eqK : K → K → Bool) (dup : Bool)
+    (op rep : String) (n : Nat) (piv : PivArg) (a : Array K) (b : Option (Array K)) : String :=
   let ok (t : Bool) : String := if t then "resid-ok" else "resid-bad"
   if rep == "diag" then
     let d : Vec n K := vecOfArr n a
     let full : Array K := ((List.range n).flatMap fun i => (List.range n).map fun j =>
       if i = j then a.getD i 0 else (0 : K)).toArray
+    if structSingular isZ eqK dup n full then "unspecified" else
     match op, b with
     | "solve", some b => ok (solveResidOk mag n full (vecToList (solveDiag d (vecOfArr n b))).toArray b)
     | "invert", none =>
@@ -207,14 +228,17 @@ def fltCase (mag : K → Float) (absval : K → Q) (op rep : String) (n : Nat) (
     | _, _ => "bad-op"
   else
     let A : Mat n K := matOfArr n a
+    let sing := structSingular isZ eqK dup n a
+    if sing ∧ n ≤ 3 then "unspecified" else
     match op, b with
     | "solve", some b => match solveDense piv absval A (vecOfArr n b) with
-      | .ok x => ok (solveResidOk mag n a x.toArray b)
+      | .ok x => if sing then "resid-bad" else ok (solveResidOk mag n a x.toArray b)
       | .fmatrixError => "ERR:FMatrix"
     | "invert", none => match invertDense piv absval A with
-      | .ok x => ok (invertResidOk mag n a x.toArray)
+      | .ok x => if sing then "resid-bad" else ok (invertResidOk mag n a x.toArray)
       | .fmatrixError => "ERR:FMatrix"
-    | "det", none => ok (detOk mag n a (detDense piv absval A))
+    | "det", none =>
+      if sing then ok (isZ (detDense piv absval A)) else ok (detOk mag n a (detDense piv absval A))
     | "fmhinv", none | "fmhinvT", none => match fmhInvertL (op == "fmhinvT") A with
       | some (d, l) =>
         let l' : Array K := if op == "fmhinvT" then
@@ -237,11 +261,59 @@ def cxOfBits : List Int → Option (List Cx)
     let t ← cxOfBits rest
     pure (⟨r, i⟩ :: t)
 
+def fltReal (op rep : String) (n : Nat) (piv : PivArg) (a : Array Float) (b : Option (Array Float)) : String :=
+  fltCase (K := Float) Float.abs Float.abs (fun x => x == 0.0) (fun x y => x == y) true op rep n piv a b
+
+/-- `LoopSIMD<double,4>`: lane `l` holds the matrix `a[l·n² ..]` and the right-hand side `b[l·n ..]`; the answer is
+the scalar answer lane by lane; `solve` / `invert` throw as a whole as soon as one lane is singular -/
+def simdCase (lanes : Nat) (op rep : String) (n : Nat) (piv : PivArg) (a : Array Float) (b : Option (Array Float)) : String :=
+  let per : List String := (List.range lanes).map fun l =>
+    fltReal op rep n piv (a.extract (l * n * n) ((l + 1) * n * n)) (b.map fun b => b.extract (l * n) ((l + 1) * n))
+  let nsing := ((List.range lanes).filter fun l =>
+    structSingular (fun x : Float => x == 0.0) (fun x y => x == y) true n (a.extract (l * n * n) ((l + 1) * n * n))).length
+  if per.any (· == "bad-op") then "bad-op"
+  else if op != "det" ∧ n ≥ 4 ∧ nsing > 0 then (if per.any (· == "ERR:FMatrix") then "ERR:FMatrix" else "resid-bad")
+  else if per.any (· == "ERR:FMatrix") then "ERR:FMatrix"
+  else if per.any (· == "unspecified") then "unspecified"
+  else if per.all (· == "resid-ok") then "resid-ok" else "resid-bad"
+
+/-- `-?[0-9]{1,5}` -/
+def smallInt? (t : String) : Option Int :=
+  let cs := t.toList
+  let ds := if cs.head? == some '-' then cs.drop 1 else cs
+  if ds.length < 1 ∨ ds.length > 5 ∨ !(ds.all Char.isDigit) then none else t.toInt?
+
+structure FieldTok where
+  base : String
+  scaled : Bool
+
+/-- `<base>[@ka@kb][%L]` (the scale and the limit are validated; the model does not depend on them) -/
+def FieldTok.parse (w : String) : Option FieldTok :=
+  let limOk (l : String) : Bool := l == "z" || (match smallInt? l with
+    | some e => decide (-320 ≤ e ∧ e ≤ 308)
+    | none => false)
+  let rest? : Option String := match w.splitOn "%" with
+    | [r] => some r
+    | [r, l] => if limOk l then some r else none
+    | _ => none
+  match rest? with
+  | none => none
+  | some rest =>
+    match rest.splitOn "@" with
+    | [b] => some ⟨b, false⟩
+    | [b, ka, kb] =>
+      match smallInt? ka, smallInt? kb with
+      | some ka, some kb =>
+        if b == "ld" ∧ ka.natAbs ≤ 16000 ∧ kb.natAbs ≤ 16000 then some ⟨b, true⟩ else none
+      | _, _ => none
+    | _ => none
+
 def handle (line : String) : String :=
   match tokens line with
-  | field :: op :: rep :: ns :: ps :: as :: rest =>
-    match ns.toNat?, PivArg.parse ps, parseIntList? as with
-    | some n, some piv, some al =>
+  | ftok :: op :: rep :: ns :: ps :: as :: rest =>
+    match FieldTok.parse ftok, ns.toNat?, PivArg.parse ps, parseIntList? as with
+    | some ft, some n, some piv, some al =>
+      let field := ft.base
       -- n = 0 is not an admissible operand (DynamicMatrix::mat_cols asserts rows() > 0; FieldMatrix<K,0,0> is not used)
       if n < 1 ∨ n > 12 then "bad-op" else
       let bl : Option (Option (List Int)) := match rest with
@@ -254,10 +326,11 @@ def handle (line : String) : String :=
       let needB := op == "solve"
       if needB != bl.isSome then "bad-op" else
       let cnt := if rep == "diag" then n else n * n
-      let scal := if field == "c64" then 2 else 1
+      let scal := if field == "c64" then 2 else if field == "v64" then 4 else 1
       if al.length != cnt * scal ∨ (bl.map (·.length)).getD (n * scal) != n * scal then "bad-op" else
       if rep != "fm" ∧ rep != "dm" ∧ rep != "diag" then "bad-op" else
       if (op == "fmhinv" ∨ op == "fmhinvT") ∧ (rep != "fm" ∨ n > 3) then "bad-op" else
+      if field == "v64" ∧ (rep == "diag" ∨ op == "fmhinv" ∨ op == "fmhinvT" ∨ n > 7) then "bad-op" else
       match field with
       | "gf" =>
         if al.any (fun x => x < 0 ∨ x ≥ P) ∨ (bl.getD []).any (fun x => x < 0 ∨ x ≥ P) then "bad-op" else
@@ -265,18 +338,20 @@ def handle (line : String) : String :=
         let b : Option (Array Fp) := bl.map fun l => (l.map Fp.ofInt).toArray
         if rep == "diag" then gfDiag op n (vecOfArr n a) (b.map (vecOfArr n))
         else gfDense op n piv (matOfArr n a) (b.map (vecOfArr n))
-      | "f64" | "ld" =>
+      | "f64" | "ld" | "v64" =>
         match al.mapM floatOfBits, (bl.getD []).mapM floatOfBits with
         | some a, some b =>
-          fltCase (K := Float) Float.abs Float.abs op rep n piv a.toArray (if needB then some b.toArray else none)
+          if field == "v64" then simdCase 4 op rep n piv a.toArray (if needB then some b.toArray else none)
+          else fltReal op rep n piv a.toArray (if needB then some b.toArray else none)
         | _, _ => "bad-op"
       | "c64" =>
         match cxOfBits al, cxOfBits (bl.getD []) with
         | some a, some b =>
-          fltCase (K := Cx) Cx.absval Cx.absval op rep n piv a.toArray (if needB then some b.toArray else none)
+          fltCase (K := Cx) Cx.absval Cx.absval (fun z => z.re == 0.0 && z.im == 0.0)
+            (fun x y => x.re == y.re && x.im == y.im) false op rep n piv a.toArray (if needB then some b.toArray else none)
         | _, _ => "bad-op"
       | _ => "bad-op"
-    | _, _, _ => "bad-op"
+    | _, _, _, _ => "bad-op"
   | _ => "bad-op"
 
 end DV.C02.Drv
